@@ -89,6 +89,16 @@ pub(crate) fn validate(input: &DataType) -> Result<()> {
         .chain(attrs.iter_for_kind_core(&Kind::FromRef, true).map(|x| (x, Kind::FromRef)))
        .collect();
 
+    for (attr, kind) in &data_type_attrs_by_kind {
+        if attr.update.is_some() && !kind.is_from() {
+            if kind.is_into_existing() {
+                errors.insert("Struct update syntax '..' is not applicable to 'into_existing' instructions: there is no struct expression to complete.".into(), attr.ty.span);
+            } else if input.get_members().iter().any(|m| m.get_attrs().has_parameterless_parent_attr(&attr.ty)) {
+                errors.insert(format!("Struct update syntax '..' is not applicable next to a parameterless #[parent] member: {} is built from its default value.", attr.ty.path_str), attr.ty.span);
+            }
+        }
+    }
+
     for member in input.get_members() {
         let member_span = member.get_span();
         let member_attrs = member.get_attrs();
